@@ -170,7 +170,8 @@ func (b *c14Broker) Takeover(c string) error {
 		old.write(packets.NewControlPacket(packets.Pingreq))
 	}
 	if !old.WaitEOF(c14Wait) {
-		return fmt.Errorf("broker did not close the superseded connection of %s", c)
+		return fmt.Errorf("broker did not close the superseded connection of %s (mode %d, old registered=%v closedByBroker=%v, now registered=%v)",
+			c, b.k%3, bc != nil, bc != nil && bc.disconnected(), b.x.Registered(c) != nil)
 	}
 	old.Close()
 	b.x.store.DeliverAll()
